@@ -254,7 +254,7 @@ class Check:
 
 
 # --------------------------------------------------------------------------- fresh-process replay (route B)
-def fresh_replay(payload, timeout=120):
+def fresh_replay(payload, timeout=900):
     """Run psmc.replay in a fresh interpreter, twice; the two observations must be identical."""
     obs = []
     for _ in range(2):
